@@ -275,7 +275,23 @@ func (t *Thread) end(args []Value, err error, exception interface{}) {
 		// pending __close handlers, so discard them (as CallContext does).
 		t.closeStack.truncate(0)
 	} else {
-		err = t.cleanupCloseStack(nil, 0, err) // TODO: not nil
+		func() {
+			// The handlers may themselves exhaust the context's resources:
+			// hand that termination over to the caller like one raised by
+			// the coroutine's body, instead of letting it escape from this
+			// goroutine (which would bring the whole process down).
+			defer func() {
+				if r := recover(); r != nil {
+					termErr, ok := r.(ContextTerminationError)
+					if !ok {
+						panic(r)
+					}
+					t.closeStack.truncate(0)
+					exception = termErr
+				}
+			}()
+			err = t.cleanupCloseStack(nil, 0, err) // TODO: not nil
+		}()
 	}
 	t.closeErr = err
 	// Release before handing control back: once the caller has received the
